@@ -10,7 +10,6 @@
 # information at https://github.com/ddsmt/ddSMT/blob/master/LICENSE.
 
 import io
-import textwrap
 import typing
 
 from .nodes import Node
@@ -112,31 +111,54 @@ def parse_smtlib(text: str):  # noqa: C901
                 yield token
 
 
-def __write_smtlib(file: typing.TextIO, expr: Node):
-    """Write the given smtlib expression in one line into the file object."""
+def __write_smtlib(file: typing.TextIO, expr: Node, width: int = None):
+    """Write the given smtlib expression in one line into the file object.
+
+    If ``width`` is given, the separator between two tokens is a line break
+    (plus indentation) instead of a space whenever the next token does not
+    fit into ``width`` columns. Tokens themselves are never broken."""
     visit = [expr]
     needs_space = False
+    col = 0
     while visit:
         ex = visit.pop()
         if ex is None:
             file.write(')')
+            col += 1
             needs_space = True
             continue
 
+        if ex.is_leaf() and ex.data == '':
+            if needs_space:
+                file.write(' ')
+                col += 1
+            continue
+
         if needs_space:
-            file.write(' ')
+            tlen = len(ex.data) if ex.is_leaf() else 1
+            if width is not None and col + 1 + tlen > width:
+                file.write('\n  ')
+                col = 2
+            else:
+                file.write(' ')
+                col += 1
 
         if ex.is_leaf():
-            if ex.data == '':
-                continue
             if ex.data[0] == ';':
                 file.write(f'\n{ex.data}\n')
+                col = 0
             else:
                 file.write(ex.data)
+                nl = ex.data.rfind('\n')
+                if nl >= 0:
+                    col = len(ex.data) - nl - 1
+                else:
+                    col += len(ex.data)
             needs_space = True
             continue
 
         file.write('(')
+        col += 1
         needs_space = False
         visit.append(None)
         visit.extend(x for x in reversed(ex.data))
@@ -198,17 +220,11 @@ def write_smtlib(file: typing.TextIO, exprs: typing.List[Node]):
         for expr in exprs:
             __write_smtlib_pretty(file, expr)
     else:
-        # regular writeing
-        lines = [__write_smtlib_str(expr) for expr in exprs]
-        if options.args().wrap_lines:
-            # wrap every line
-            lines = map(
-                lambda line: textwrap.wrap(
-                    line, width=78, subsequent_indent='  '), lines)
-            # and flatten the list
-            lines = [sub for line in lines for sub in line]
-        for line in lines:
-            file.write(line)
+        # regular writing, one expression per line; with --wrap-lines long
+        # lines are broken between tokens
+        width = 78 if options.args().wrap_lines else None
+        for expr in exprs:
+            __write_smtlib(file, expr, width)
             file.write('\n')
 
 
